@@ -1693,6 +1693,10 @@ class Evaluator:
                 stats["ok"].add(callee[0].qualname)
                 return r
             stats["fail"].add(callee[0].qualname)
+        elif callee is not None and callee[0] is not self.fn and callee[0].name not in ANCHORS and not callee[0].name.startswith("__") and callee[0].qualname not in self.inline_stack:
+            # a package function that could not be put in place here (nesting limit, generator, nested def): it is not a helper whose body
+            # is seen through its callers — the closure scans must look at it as a function of its own
+            _INLINE_STATS.setdefault(id(self.p), {"ok": set(), "fail": set()})["fail"].add(callee[0].qualname)
         # mutation of a local container through a method
         fnode = getattr(node, "func", None)
         if isinstance(fnode, ast.Attribute) and fnode.attr in MUTATORS and isinstance(fnode.value, ast.Name) and f[0] == "attr" and f[2] == fnode.attr:
@@ -1830,7 +1834,9 @@ class Evaluator:
                     if m is not None and not m.is_abstract and not m.is_staticmethod and not m.is_classmethod and not prog.subclasses(r[1]):
                         return m, 1
                 return None
-            if b[0] == "param" and self.fn.cls is not None and self.fn.params and b[1] == self.fn.params[0] and not self.fn.is_staticmethod and not self.inline_stack:
+            if b[0] == "param" and self.fn.cls is not None and self.fn.params and b[1] == self.fn.params[0] and not self.fn.is_staticmethod:
+                # (also inside a method that is itself being put in place in a caller: the receiver is an instance of this class or of a
+                # subclass, and subclasses that re-define the method are excluded below)
                 m = self.fn.cls.find_method(f[2])
                 if m is None or m.is_abstract:
                     return None
@@ -1915,7 +1921,8 @@ class Evaluator:
                 except AnalysisError:
                     return NotImplemented
         k = len(paths)
-        if maybe:
+        if maybe or not hasattr(p, "_choices"):
+            # (also: a position that has no path of its own to fork — a lambda body, a comprehension element)
             # conditionally evaluated position (comprehension element, short-circuit operand): only a helper that is one straight expression —
             # a single path, no decisions, nothing stored — can be put in place there
             if k != 1 or paths[0].conds or paths[0].result is None or paths[0].result[0] != "return" or any(e.kind not in ("call", "subscript") for e in paths[0].effects):
